@@ -10,6 +10,7 @@ import (
 	bnet "github.com/bio-routing/bio-rd/net"
 	"github.com/bio-routing/bio-rd/protocols/bgp/packet"
 	"github.com/bio-routing/bio-rd/protocols/bgp/server"
+	"github.com/bio-routing/bio-rd/protocols/bgp/types"
 	"github.com/bio-routing/bio-rd/route"
 
 	"verifharness/core"
@@ -40,6 +41,10 @@ func (c *captureConn) RemoteAddr() net.Addr               { return &net.TCPAddr{
 func (c *captureConn) SetDeadline(t time.Time) error      { return nil }
 func (c *captureConn) SetReadDeadline(t time.Time) error  { return nil }
 func (c *captureConn) SetWriteDeadline(t time.Time) error { return nil }
+
+// senderDiffer names the one attribute in which the bundles a, b, c differ (everything else is equal): the sender groups queued
+// prefixes by attribute bundle, so every attribute that goes on the wire has to keep bundles apart.
+var senderDiffer = "med"
 
 type senderSess struct {
 	V6      bool
@@ -84,11 +89,76 @@ func senderPrefix(name string, v6 bool) *bnet.Prefix {
 
 func senderPath(name string, s senderSess) *route.Path {
 	id := senderBundle[name]
-	p := buildRibPath(ribPath{LP: 100, MED: id, NH: 9, ASP: []uint32{65001, 65002}}, s.V6, !s.IBGP, addr(s.V6, 5).Ptr(), nil)
+	med := uint32(1)
+	if senderDiffer == "med" {
+		med = id
+	}
+	p := buildRibPath(ribPath{LP: 100, MED: med, NH: 9, ASP: []uint32{65001, 65002}}, s.V6, !s.IBGP, addr(s.V6, 5).Ptr(), nil)
 	if s.AddPath {
 		p.BGPPath.PathIdentifier = id
 	}
+	switch senderDiffer {
+	case "med":
+	case "comm":
+		p.BGPPath.Communities = &types.Communities{100, id}
+	case "lcomm":
+		p.BGPPath.LargeCommunities = &types.LargeCommunities{{GlobalAdministrator: 1, DataPart1: 2, DataPart2: id}}
+	case "otc":
+		p.BGPPath.BGPPathA.OnlyToCustomer = 65000 + id
+	case "unknown":
+		p.BGPPath.UnknownAttributes = []types.UnknownPathAttribute{{Optional: true, Transitive: true, TypeCode: 200, Value: []byte{byte(id)}}}
+	case "origin":
+		p.BGPPath.BGPPathA.Origin = uint8(id - 1)
+	case "aggr": // a: neither, b: ATOMIC_AGGREGATE, c: AGGREGATOR
+		if id == 2 {
+			p.BGPPath.BGPPathA.AtomicAggregate = true
+		}
+		if id == 3 {
+			p.BGPPath.BGPPathA.Aggregator = &types.Aggregator{Address: 0x0a000009, ASN: 65001}
+		}
+	default:
+		panic("harness: unknown differ " + senderDiffer)
+	}
 	return p
+}
+
+// senderBundleOf names the bundle an UPDATE's attributes belong to.
+func senderBundleOf(a wire.Attrs) string {
+	var v uint32
+	switch senderDiffer {
+	case "med":
+		v = a.MED
+	case "comm":
+		if len(a.Communities) == 2 {
+			v = a.Communities[1]
+		}
+	case "lcomm":
+		if len(a.LargeComm) == 1 {
+			v = a.LargeComm[0][2]
+		}
+	case "otc":
+		v = a.OTC - 65000
+	case "unknown":
+		if len(a.Unknown) == 1 && len(a.Unknown[0].Value) == 1 {
+			v = uint32(a.Unknown[0].Value[0])
+		}
+	case "origin":
+		v = uint32(a.Origin) + 1
+	case "aggr":
+		v = 1
+		if a.Present[6] {
+			v = 2
+		}
+		if a.Present[7] {
+			v = 3
+		}
+	}
+	for name, id := range senderBundle {
+		if v == id {
+			return name
+		}
+	}
+	return "?"
 }
 
 // peerView folds the captured UPDATEs as the peer would: (prefix[, path id]) -> bundle.
@@ -127,12 +197,7 @@ func peerView(raw []byte, s senderSess) (map[string][]string, error) {
 			delete(view, key{nameOf(n), n.PathID})
 		}
 		for _, n := range d.Update.Announced {
-			b := "?"
-			for name, id := range senderBundle {
-				if d.Update.Attrs.MED == id {
-					b = name
-				}
-			}
+			b := senderBundleOf(d.Update.Attrs)
 			view[key{nameOf(n), n.PathID}] = b
 		}
 	}
@@ -162,6 +227,7 @@ type senderState struct {
 func init() {
 	core.Register("sender", func(b *core.Behaviour, p core.Params) *core.Divergence {
 		s := sessFromParams(p)
+		senderDiffer = p.Str("differ", "med")
 		ticker := p.Bool("ticker", false)
 		rounds := p.Int("rounds", 6)
 		for r := 0; r < rounds; r++ { // the order of the buckets is Go map order: run several times
